@@ -292,7 +292,8 @@ pub fn hash_stream(seed: u64, cases: usize, exhaustive: bool, ex: &mut ChildExec
         specs.push(table);
     }
     for spec in specs {
-        let text = spec.iter().map(|h| h.iter().map(|(c, k)| format!("{c}:{k}")).collect::<Vec<_>>().join(",")).collect::<Vec<_>>().join(";");
+        // a hasher that answers no code is written `-` (an empty spec is the empty table)
+        let text = spec.iter().map(|h| if h.is_empty() { "-".to_string() } else { h.iter().map(|(c, k)| format!("{c}:{k}")).collect::<Vec<_>>().join(",") }).collect::<Vec<_>>().join(";");
         for &code in &codes {
             // the built-in table's own answer is an oracle value for the model
             let builtin = ex.exec(&format!("hash 64 T= {code} {}", hex(&data)));
